@@ -84,8 +84,12 @@ func VerifC06_Signatures() {
 	if sym.Tier() == "thorough" {
 		L = 3
 	}
-	c06Run(L, false)
+	c06Run(L, false, 2)
 }
+
+// VerifC06_SignaturesThree (thorough tier): histories of two operations with
+// three acting validators.
+func VerifC06_SignaturesThree() { c06Run(2, false, 3) }
 
 // VerifC06_Rekey: a validator that has already signed re-registers another key
 // and signs again (operations: sign / re-register only).
@@ -94,10 +98,14 @@ func VerifC06_Rekey() {
 	if sym.Tier() == "thorough" {
 		L = 3
 	}
-	c06Run(L, true)
+	actors := 2
+	if sym.Tier() == "thorough" {
+		actors = 3
+	}
+	c06Run(L, true, actors)
 }
 
-func c06Run(L int, rekeyFocus bool) {
+func c06Run(L int, rekeyFocus bool, actors int) {
 	c06KeyOf = []int{0, 1, 2, 3}
 	c06SignedWith = []int{-1, -1, -1, -1}
 	env := New(100)
@@ -138,15 +146,11 @@ func c06Run(L int, rekeyFocus bool) {
 	published := [][]byte{bts0}
 
 	// pre-state: some estimates may already be in (submitted through the real handler)
-	actors := 2
 	pre := sym.Choice("estimates-already-in", 3)
 	for v := 0; v < pre; v++ {
 		if err := env.Consensus.AddMessageGasEstimates(env.Ctx, Vals[v], []*consensustypes.MsgAddMessageGasEstimates_GasEstimate{{MsgId: id, QueueTypeName: c06Queue, Value: 21000}}); err != nil {
 			panic(err)
 		}
-	}
-	if sym.Tier() == "thorough" {
-		actors = 3
 	}
 	if rekeyFocus {
 		// pre-state: validator 0 has a genuine signature on record
